@@ -696,6 +696,70 @@ def rule_r9_accessor_copies(ctx: Ctx) -> None:
     ctx.count(n)
 
 
+def rule_r10_picklable_state(ctx: Ctx) -> None:
+    """R5 looks at the stores of the classes.  This rule looks at the objects: the state (`__dict__`, recursively through
+    containers and nested instances) of every constructed instance of the pool, after it has been asked every public member
+    (so that memo slots are filled), consists of values that pickle by value - numbers, strings, bytes, None, enumeration
+    members, paths, containers of those, and instances of classes of the package that define no pickling hook.  A function
+    object, a bound method, a lambda, a partial application, an iterator or generator, a module or an open file does not."""
+    from ..fold import Folder, Unfoldable
+    from ..absint import Raised
+
+    ctx.rule("C18.R10", "the state of every constructed type / attribute / bit length set - after all public members have been asked - consists of values that pickle by value (no function objects, bound methods, lambdas, partials, iterators, modules); classes reached define no __reduce__ / __getstate__ / __setstate__ / __slots__", min_instances=10)
+    pool, hook = _model_pool(ctx)
+    import fractions
+    import pathlib
+
+    def offending(v: Any, path: str, seen: Set[int], out: List[str]) -> None:
+        if id(v) in seen or len(out) > 4:
+            return
+        seen.add(id(v))
+        if v is None or isinstance(v, (bool, int, float, str, bytes, fractions.Fraction, pathlib.PurePath)):
+            return
+        if isinstance(v, (list, tuple, set, frozenset)):
+            for i, x in enumerate(v):
+                offending(x, "%s[%d]" % (path, i), seen, out)
+            return
+        if isinstance(v, dict):
+            for k, x in v.items():
+                offending(k, "%s key" % path, seen, out)
+                offending(x, "%s[%r]" % (path, k if not hasattr(k, "__dict__") else "..."), seen, out)
+            return
+        tn = type(v).__name__
+        if tn == "AObj":
+            for k in ctx.repo.mro(v._cls_):
+                if isinstance(k, ClassInfo):
+                    special = [m for m in ("__reduce__", "__reduce_ex__", "__getstate__", "__setstate__", "__getnewargs__") if m in k.methods]
+                    if special or "__slots__" in k.assigns:
+                        out.append("%s: an instance of %s, which defines %s" % (path, k.name, special or "__slots__"))
+            for a, x in v.__dict__.items():
+                if a in ("_cls_", "_ctx_", "_record_fields_"):
+                    continue
+                offending(x, "%s.%s" % (path, a), seen, out)
+            return
+        if tn in ("Sym", "_V", "APath", "ClassInfo", "_TypeOf") or (hasattr(v, "_kind_") and tn != "AObj"):
+            return  # enumeration members / records / paths / classes (classes pickle by reference to their name)
+        out.append("%s: %s (%s)" % (path, tn, repr(v)[:50]))
+
+    n = 0
+    seen_cls: Set[str] = set()
+    for label, obj, _key in pool:
+        if obj._cls_.name in seen_cls:
+            continue
+        seen_cls.add(obj._cls_.name)
+        # fill whatever is filled lazily
+        for q in ("x.bit_length_set.min", "x.bit_length_set.max", "set(x.bit_length_set % 8)", "hash(x)", "str(x)", "x == x", "x.alignment_requirement"):
+            try:
+                Folder({"x": obj}, ctx.repo, obj._cls_.module, None, hook).fold(ast.parse(q, mode="eval").body)
+            except (Raised, Unfoldable):
+                pass
+        bad: List[str] = []
+        offending(obj, obj._cls_.name, set(), bad)
+        n += 1
+        ctx.check(not bad, obj._cls_.short, "state after all queries", "model objects pickle by value with all their fields", obj._cls_.module.relpath, bad[:4])
+    ctx.count(n)
+
+
 def run(ctx: Ctx) -> None:
     ctx.attempt(rule_r7_contract, ctx)
     ctx.attempt(rule_r8_bls_contract, ctx)
@@ -704,6 +768,7 @@ def run(ctx: Ctx) -> None:
     ctx.attempt(rule_r4, ctx)
     ctx.attempt(rule_r5, ctx)
     ctx.attempt(rule_r9_accessor_copies, ctx)
+    ctx.attempt(rule_r10_picklable_state, ctx)
     from . import c01
 
     # immutability also fails through aliases: a memoised residue set handed out by reference and modified by the caller
